@@ -193,6 +193,47 @@ fn state(acc: &mut Acc, utc: Rd, off: i32, light: bool, args_u32: &[u32], years_
     if giso != Ok((iy, iw)) {
         acc.violation("DateTime::iso_week", format!("{:?}.iso_week()", dt), format!("{:?}", (iy, iw)), format!("{:?}", giso));
     }
+    // sibling forms of the constructions, conversions and comparisons
+    {
+        acc.transitions += 6;
+        #[allow(deprecated)]
+        let olds = (DateTime::<FixedOffset>::from_naive_utc_and_offset(ndt, fo), DateTime::<FixedOffset>::from_utc(ndt, fo));
+        if olds.0 != dt || olds.0.naive_utc() != ndt || olds.0.offset().local_minus_utc() != off || olds.1.naive_utc() != ndt || olds.1.offset().local_minus_utc() != off {
+            acc.violation("DateTime::from_naive_utc_and_offset / from_utc", format!("DateTime::from_naive_utc_and_offset({:?}, {})", ndt, fo), format!("instant {:?} at offset {}", ndt, off), format!("{:?} / {:?}", olds.0, olds.1));
+        }
+        let cu: DateTime<Utc> = DateTime::from(dt);
+        let cf: DateTime<FixedOffset> = DateTime::from(cu);
+        if cu.naive_utc() != ndt || cf.naive_utc() != ndt || cf.offset().local_minus_utc() != 0 || ndt.and_utc() != cu || ndt.and_utc().naive_utc() != ndt {
+            acc.violation("DateTime:From conversions", format!("DateTime::<Utc>::from({:?}) and back to DateTime<FixedOffset>; NaiveDateTime::and_utc", dt), format!("instant {:?} (offset 0 on the way back)", ndt), format!("{:?} / {:?} / {:?}", cu, cf, ndt.and_utc()));
+        }
+        if u.partial_cmp(&dt) != Some(std::cmp::Ordering::Equal) || dt.partial_cmp(&u) != Some(std::cmp::Ordering::Equal) || !(cf == dt) || dt != cu {
+            acc.violation("DateTime::partial_cmp across zones", format!("{:?} compared with the same instant in Utc", dt), "Equal".into(), format!("{:?} / {:?}", u.partial_cmp(&dt), dt.partial_cmp(&u)));
+        }
+        if fo.offset_from_utc_datetime(&ndt) != fo || dt.timezone() != fo || *dt.offset() != fo {
+            acc.violation("FixedOffset::offset_from_utc_datetime / timezone()", format!("FixedOffset({}) read back from {:?}", off, dt), format!("{:?}", fo), format!("{:?} / {:?} / {:?}", fo.offset_from_utc_datetime(&ndt), dt.timezone(), dt.offset()));
+        }
+        let tl = guard(|| (dt.num_seconds_from_midnight(), dt.hour12(), dt.time().num_seconds_from_midnight(), dt.time().nanosecond()));
+        let h = w.1 / 3600;
+        if tl != Ok((w.1, (h >= 12, if h % 12 == 0 { 12 } else { h % 12 }), w.1, w.2)) {
+            acc.violation("DateTime:Timelike derived readers", format!("num_seconds_from_midnight / hour12 / time() of {:?} (utc {:?}, offset {})", dt, ndt, off), format!("{:?}", (w.1, (h >= 12, if h % 12 == 0 { 12 } else { h % 12 }), w.1, w.2)), format!("{:?}", tl));
+        }
+        if in_nominal {
+            let wl = mk_ndt(w.0, w.1, w.2);
+            acc.transitions += 3;
+            #[allow(deprecated)]
+            let fl = guard(|| DateTime::<FixedOffset>::from_local(wl, fo));
+            let al = wl.and_local_timezone(fo).single();
+            if fl.as_ref().ok().map(|x| x.naive_utc()) != Some(ndt) || al.map(|x| (x.naive_utc(), x.offset().local_minus_utc())) != Some((ndt, off)) || fo.offset_from_local_datetime(&wl).single() != Some(fo) {
+                acc.violation("DateTime::from_local / and_local_timezone", format!("DateTime::from_local({:?}, {}) / NaiveDateTime::and_local_timezone", wl, fo), format!("instant {:?}", ndt), format!("{:?} / {:?}", fl, al));
+            }
+            if w.2 == 0 {
+                let g = guard(|| fo.with_ymd_and_hms(y as i32, m, d, w.1 / 3600, w.1 / 60 % 60, w.1 % 60).single());
+                if g != Ok(Some(dt)) {
+                    acc.violation("TimeZone::with_ymd_and_hms", format!("FixedOffset({}).with_ymd_and_hms({}, {}, {}, {}, {}, {})", off, y, m, d, w.1 / 3600, w.1 / 60 % 60, w.1 % 60), format!("Single({:?})", dt), format!("{:?}", g));
+                }
+            }
+        }
+    }
     if !light || !in_nominal {
         acc.transitions += 1;
         let txt = guard(|| dt.format("%Y-%m-%dT%H:%M:%S%.9f").to_string());
